@@ -39,7 +39,12 @@ Sites(p) ==
                      { [kind |-> "set", a |-> a, b |-> 2, prekind |-> "set", prea |-> b, preb |-> 3] }
                 ELSE IF p.profile = TwoByte THEN { [kind |-> "set", a |-> 200, b |-> 20, prekind |-> "set", prea |-> 201, preb |-> 5] }
                 ELSE {}
-      plain == { [kind |-> m.kind, a |-> m.a, b |-> m.b, prekind |-> "", prea |-> 0, preb |-> 0] : m \in all }
+      \* growing the exported slices: both sides append (the observed side first)
+      grow == (IF Len(p.csrc) < 14 THEN { [kind |-> "csrc_append", a |-> 7, b |-> 0, prekind |-> "csrc_append", prea |-> 9, preb |-> 0],
+                                           [kind |-> "csrc_append", a |-> 7, b |-> 0, prekind |-> "", prea |-> 0, preb |-> 0] } ELSE {})
+              \cup { [kind |-> "payload_append", a |-> 77, b |-> 0, prekind |-> "payload_append", prea |-> 99, preb |-> 0],
+                     [kind |-> "payload_append", a |-> 77, b |-> 0, prekind |-> "", prea |-> 0, preb |-> 0] }
+      plain == { [kind |-> m.kind, a |-> m.a, b |-> m.b, prekind |-> "", prea |-> 0, preb |-> 0] : m \in all } \cup grow
   IN SetToSeq({ [side |-> s, kind |-> m.kind, a |-> m.a, b |-> m.b, prekind |-> m.prekind, prea |-> m.prea, preb |-> m.preb]
                 : s \in {"orig", "clone"}, m \in plain \cup second })
 
